@@ -4,5 +4,5 @@
    No Extract Constant of our own; N / positive / nat / Z / string stay Coq datatypes. *)
 From Coq Require Extraction.
 From Coq Require Import ExtrOcamlBasic.
-From Verif Require Import Base.Bytes Corr.Items Corr.PrecompileCorr Corr.TracerCorr Corr.JournalCorr Corr.ExecCorr Corr.MemCorr Corr.CallTracerCorr Corr.CancelCorr Corr.CallGasCorr.
-Extraction "modelrun_core.ml" item pc_check_items pcs_check_items th_check_items jo_check_items ex_check_items ex_diag_items mc_check_items tr_check_items cn_check_items cg_check_items.
+From Verif Require Import Base.Bytes Corr.Items Corr.PrecompileCorr Corr.TracerCorr Corr.JournalCorr Corr.ExecCorr Corr.MemCorr Corr.CallTracerCorr Corr.CancelCorr Corr.CallGasCorr Corr.JumpDestCorr Corr.ModExpCorr Corr.MemSizeCorr Corr.SStoreCorr.
+Extraction "modelrun_core.ml" item pc_check_items pcs_check_items th_check_items jo_check_items ex_check_items ex_diag_items mc_check_items tr_check_items cn_check_items cg_check_items jd_check_items mg_check_items ms_check_items ss_check_items.
